@@ -28,6 +28,9 @@ def run(rep, tier):
     common.guarded(rep, "C05.3", c05_3, rep, ix)
     common.guarded(rep, "C05.4", c05_4, rep, ix)
     common.guarded(rep, "C05.5", c05_5, rep, ix)
+    # the initialiser of a str / bool variable is read by _literal: the token's own text, quotes removed, nothing decoded or rewritten
+    from . import c02
+    common.guarded(rep, "C02.7", c02.c02_7, rep, ix, M)
     from . import c03
     cc = ContextClasses(M.src["py_parser"])
     br = common.guarded(rep, "C03.2", c03.c03_2, rep, ix, M)
